@@ -20,6 +20,10 @@ def prompt_cases():
             labels = " ".join(["(adv %d) (run 0)" % p] * k)
             cases.append(("p%d" % n, "(case p%d timed %s (interval %d) (labels %s))" % (n, "local" if n % 2 else "threads", p, labels),
                           {"opfull": "(interval %d)" % p, "form": "local", "class": "prompt"}))
+            # the instant has been reached when interval_at is called: the first tick at the first poll
+            n += 1
+            cases.append(("p%d" % n, "(case p%d timed %s (interval_at 0 %d) (labels (run 0) %s))" % (n, "threads" if n % 2 else "local", p, labels),
+                          {"opfull": "(interval_at 0 %d)" % p, "form": "local", "class": "prompt"}))
             for dl in (3, 12):
                 n += 1
                 labels2 = "(run 0) (adv %d) (run 0) " % dl + labels
